@@ -6,7 +6,9 @@ prove: coq/C13/*.v - index round trips / ranges / strides on the generated funct
        layout of UniformGrid and Tensor1DGrids points and kron weights through the generated index map (any vector
        type, skewed axes); separable integrands; sum bound of the constant weight schemes (all shapes, 2-D/3-D);
        Fourier1: factorisation into closed-form per-direction factors (all shapes), bound for n_i <= 64 (partial); Fourier2 refuted; from_molecule box arithmetic (partial + refuted);
-       closest_point (partial + refuted); cube data block chunking (partial); nested-spline interpolation reproduces
+       closest_point (partial + refuted); for the three repairable clauses (Fourier2 in 2-D, box centre, closest_point) the
+       full-strength theorem is an obligation of its own (C13_props_{f2d,boxfull,closestfull}.v) that compiles on repaired code;
+       on the pinned commit C13_refuted_*.v explains the failure (ctx.mark_refuted) and the known finding is re-derived; cube data block chunking (partial); nested-spline interpolation reproduces
        tricubic polynomials and derivatives (spline = oracle Section variable); log-variant chain rule, orders 1-3.
 tie:   exhaustive index tables for a family of small shapes (vm_compute on the generated functions); exact
        correspondence of points / weights on integer origins, axes, shapes; rational correspondence of the weight
@@ -338,13 +340,13 @@ def stage_weights(ctx: Ctx, cs: Cases, tac: list):
             except Exception as e:
                 w, err = None, type(e).__name__
             if scheme == "Fourier2":
-                # known-refuted clause: the model says "no weights" in 2-D and a ~zero sum in 3-D; tie only
-                if d == 2:
+                # known-refuted clause (weights sum to ~0): the sum bound is not demanded again, the model is tied only
+                if d == 2 and not VARIANT["fourier2_2d_ok"]:
                     if err != "IndexError":
-                        ctx.fail("fourier2_2d_raises", key, err, f"{rep}: the model predicts IndexError, the implementation gives {err or 'a grid'}", found_input=False)
+                        ctx.fail("fourier2_2d_constructs", key, err, f"{rep}: the directed witness (4x4) says 2-D Fourier2 raises IndexError, here the implementation gives {err or 'a grid'}", found_input=False)
                     continue
                 if err is not None:
-                    ctx.fail("fourier2_refuted", key, err, f"{rep} raises {err}", {"reproduce": rep})
+                    ctx.fail("fourier2_2d_constructs" if d == 2 else "fourier2_refuted", key, err, f"{rep}: documented scheme cannot be constructed ({err})", {"reproduce": rep})
                     continue
             elif err is not None:
                 ctx.fail(f"weights_sum_bound{d}", key, err, f"{rep}: documented scheme cannot be constructed ({err})", {"reproduce": rep})
@@ -393,7 +395,7 @@ def stage_weights(ctx: Ctx, cs: Cases, tac: list):
     try:
         UniformGrid(np.zeros(2), np.eye(2), np.array([4, 4]), weight="Fourier2")
     except Exception as e:
-        ctx.fail("fourier2_2d_raises", F2_2D_KEY, type(e).__name__,
+        ctx.fail("fourier2_2d_constructs", F2_2D_KEY, type(e).__name__,
                  f"{rep}: documented scheme cannot be constructed in two dimensions ({type(e).__name__}: {e})", {"reproduce": rep})
 
 
@@ -450,32 +452,28 @@ def stage_box(ctx: Ctx, cs: Cases):
         if not np.array_equal(np.asarray(g.axes), np.diag([spacing] * 3)):
             ctx.fail("box_margin_partial", key, np.asarray(g.axes).tolist(), f"{rep}: axes are not diag(spacing)", {"reproduce": rep + ".axes"})
             continue
-        # ---- what the box arithmetic guarantees (theorem box_margin_partial), checked exactly on the implementation
+        # ---- the strongest compiled theorem, checked exactly on the implementation: box_contains_nuclei (margins >= ext - spacing
+        #      for every molecule) when it is proved of the generated box arithmetic, box_margin_partial otherwise
         fz = [Fraction(z) for z in nums]
         s, e = Fraction(spacing), Fraction(ext)
         bad = None
-        sym_all = True
         for c in range(3):
             xs = [Fraction(r[c]) for r in coords]
             com = sum(z * x for z, x in zip(fz, xs)) / sum(fz)
-            off = com - (max(xs) + min(xs)) / 2
-            sym_all = sym_all and off == 0
+            off = Fraction(0) if VARIANT["box_full"] else abs(com - (max(xs) + min(xs)) / 2)
             for lo, hi, cc in box_margins(g, coords):
-                if cc != c:
-                    continue
-                if lo < e - off - TOL * 100 or hi < e - s + off - TOL * 100:
-                    bad = (c, float(lo), float(hi), float(e - off), float(e - s + off))
+                if cc == c and (lo < e - off - TOL * 100 or hi < e - s - off - TOL * 100):
+                    bad = (c, float(lo), float(hi), float(e - off), float(e - s - off))
         if bad is not None:
-            ctx.fail("box_margin_partial", key, list(bad[1:3]),
-                     f"{rep}: direction {bad[0]} margins (lo,hi)=({bad[1]:.6g},{bad[2]:.6g}) below the guaranteed ({bad[3]:.6g},{bad[4]:.6g})"
-                     + (" - a symmetric molecule: nuclei closer to the box faces than extension - spacing" if sym_all else ""),
+            ctx.fail("box_contains_nuclei" if VARIANT["box_full"] else "box_margin_partial", key, list(bad[1:3]),
+                     f"{rep}: direction {bad[0]} margins (lo,hi)=({bad[1]:.6g},{bad[2]:.6g}) below the guaranteed ({bad[3]:.6g},{bad[4]:.6g})",
                      {"reproduce": rep + ".points"})
             continue
         # ---- model
         parts = []
         for c in range(3):
             xs = ql([r[c] for r in coords])
-            parts.append(f"(shape_axis QOps {xs} {qq(spacing)} {qq(ext)} =? {zz(int(g.shape[c]))})%Z")
+            parts.append(f"(shape_axis QOps {ql(nums)} {xs} {qq(spacing)} {qq(ext)} =? {zz(int(g.shape[c]))})%Z")
             parts.append(f"Qclose {qq(TOL)} (origin_axis QOps {ql(nums)} {xs} {qq(spacing)} {qq(ext)}) {qq(float(g.origin[c]))}")
 
         def handler(key=key, rep=rep):
@@ -489,7 +487,7 @@ def stage_box(ctx: Ctx, cs: Cases):
     worst = min(min(lo, hi) for lo, hi, _ in box_margins(g, [[0.0, 0, 0], [10.0, 0, 0]]))
     if worst < Fraction(48, 10) - TOL * 100:
         g2 = UniformGrid.from_molecule(np.array([1, 80]), np.array([[0.0, 0, 0], [10, 0, 0]]), extension=2.0, rotate=False)
-        ctx.fail("box_refuted", BOX_KEY, round(float(worst), 9),
+        ctx.fail("box_contains_nuclei", BOX_KEY + (":although-proved-of-the-model" if VARIANT["box_full"] else ""), round(float(worst), 9),
                  f"{rep}: the hydrogen at x=0 is only {float(worst):.4f} inside the first grid plane (extension 5.0 - spacing 0.2 = 4.8 promised); "
                  f"with extension=2.0 the grid starts at x={float(g2.origin[0]):.4f}, i.e. the nucleus is outside the box",
                  {"reproduce": rep + ".origin", "origin": np.asarray(g.origin).tolist(), "shape": np.asarray(g.shape).tolist()})
@@ -528,7 +526,7 @@ def stage_box(ctx: Ctx, cs: Cases):
     t = (coords - np.asarray(g.origin)) @ np.linalg.inv(ax)  # fractional grid coordinates of the nuclei
     worst = float(min(t.min(), (np.asarray(g.shape) - 1 - t).min()) * 0.25)
     if worst < 1.75 - 1e-9:
-        ctx.fail("box_refuted", BOXROT_KEY, round(worst, 6),
+        ctx.fail("box_contains_nuclei_rotated", BOXROT_KEY, round(worst, 6),
                  f"{rep}: an inversion-symmetric molecule; in the grid's own (orthogonal) frame a nucleus lies {-worst:.4f} OUTSIDE the box "
                  "(margin extension - spacing = 1.75 promised): box extents are measured along the columns of the eigenvector matrix, "
                  "the grid axes are its rows",
@@ -558,21 +556,28 @@ def true_nearest(o, diag, shape, p):
 def stage_closest(ctx: Ctx, cs: Cases):
     from grid.cubic import UniformGrid
 
+    full = VARIANT["closest_full"]
     grids = [((0, 0, 0), (1, 1, 1), (3, 4, 5)), ((-1, 0.5, 2), (0.25, 0.5, 2), (4, 3, 2)), ((0, 0), (1, 1), (5, 4)), ((1.5, -2), (0.125, 3), (7, 2))]
+    if full:  # proved for axes of either sign
+        grids += [((0, 0, 0), (-1, 1, 1), (3, 3, 3)), ((1, -1), (0.5, -0.25), (4, 5))]
     for _ in range(3 if ctx.quick else 100):
         d = ctx.rng.choice([2, 3])
-        grids.append((tuple(ctx.rng.randint(-16, 16) / 8 for _ in range(d)), tuple(ctx.rng.choice([0.125, 0.25, 0.5, 1, 2, 3]) for _ in range(d)),
+        grids.append((tuple(ctx.rng.randint(-16, 16) / 8 for _ in range(d)),
+                      tuple(ctx.rng.choice([0.125, 0.25, 0.5, 1, 2, 3]) * (ctx.rng.choice([1, -1]) if full else 1) for _ in range(d)),
                       tuple(ctx.rng.randint(2, 5) for _ in range(d))))
     types_seen = set()
     for o, diag, shape in grids:
         d = len(shape)
         g = UniformGrid(np.array(o, float), np.diag(np.array(diag, float)), np.array(shape), weight="Rectangle")
         for q in range(12 if ctx.quick else 60):
-            # inside the box extended by (almost) half a spacing; every fourth query exactly on a tie or on a node
+            # inside the box extended by (almost) half a spacing (anywhere up to three spacings outside when the full theorem
+            # is proved of the generated code); every fourth query exactly on a tie or on a node
             t = []
             for a in range(d):
                 if q % 4 == 0:
                     t.append(Fraction(ctx.rng.randint(0, 2 * (shape[a] - 1)), 2))
+                elif full and q % 4 == 1:
+                    t.append(Fraction(ctx.rng.randint(-48, 16 * shape[a] + 32), 16))
                 else:
                     t.append(Fraction(ctx.rng.randint(-7, 16 * shape[a] - 9), 16))
             p = [float(Fraction(o[a]) + t[a] * Fraction(diag[a])) for a in range(d)]
@@ -588,7 +593,7 @@ def stage_closest(ctx: Ctx, cs: Cases):
             types_seen.add(type(r).__name__)
             arg, _ = true_nearest(o, diag, shape, p)
             if float(r) != int(r) or int(r) not in arg:
-                ctx.fail(f"closest_is_nearest{d}_partial", key, float(r), f"{rep} = {r!r}; the nearest node(s) have flat index {arg}", {"reproduce": rep})
+                ctx.fail("closest_is_nearest" if full else f"closest_is_nearest{d}_partial", key, float(r), f"{rep} = {r!r}; the nearest node(s) have flat index {arg}", {"reproduce": rep})
                 continue
             qo, qp = qt(o), qt(p)
             tupl = "fun r => let '(_, idx) := r in (idx =? " + zz(int(r)) + ")%Z"
@@ -597,8 +602,8 @@ def stage_closest(ctx: Ctx, cs: Cases):
             def handler(key=key, rep=rep, d=d):
                 ctx.fail(f"closest_is_nearest{d}_partial", key, None, f"{rep}: differs from the rint model (a nearest node is still returned)", found_input=False)
             cs.add(expr, handler)
-    ctx.notes.append(f"closest_point returns the flat index as {sorted(types_seen)} (a float, not an int); its VALUE identifies the nearest node, "
-                     "which is what the property text requires, so this is recorded as an observation, not as a violation")
+    ctx.notes.append(f"closest_point returns the flat index as {sorted(types_seen)}; it is compared by VALUE (a float index that identifies the nearest "
+                     "node satisfies the property text; recorded as an observation, not as a violation)")
     # ---- the two findings on their canonical inputs (tied to the model's refutation as well)
     for key, axes, shape, p, want in [(CLOSE_NEG_KEY, (-1.0, 1.0, 1.0), (3, 3, 3), (-1.0, 0.0, 0.0), 9), (CLOSE_OUT_KEY, (1.0, 1.0, 1.0), (3, 4, 5), (0.0, 0.0, 7.0), 4)]:
         rep = f"UniformGrid(np.zeros(3), np.diag({list(axes)}), np.array({list(shape)})).closest_point(np.array({list(p)}))"
@@ -606,13 +611,13 @@ def stage_closest(ctx: Ctx, cs: Cases):
         try:
             r = float(g.closest_point(np.array(p)))
         except Exception as e:
-            ctx.fail("closest_refuted", key, type(e).__name__, f"{rep} raises {type(e).__name__}", {"reproduce": rep})
+            ctx.fail("closest_is_nearest", key, type(e).__name__, f"{rep} raises {type(e).__name__}", {"reproduce": rep})
             continue
         d2 = ((np.asarray(g.points) - np.array(p)) ** 2).sum(axis=1)
         nearest = [int(i) for i in np.flatnonzero(d2 == d2.min())]
         assert nearest == [want]
         if r != int(r) or int(r) not in nearest:
-            ctx.fail("closest_refuted", key, r,
+            ctx.fail("closest_is_nearest", key + (":although-proved-of-the-model" if full else ""), r,
                      f"{rep} = {r}: the nearest node is index {want} at distance {math.sqrt(d2.min()):.4g}"
                      + (f"; index {int(r)} is a node at distance {math.sqrt(d2[int(r)]):.4g}" if 0 <= r < len(d2) else "; the returned index is negative"),
                      {"reproduce": rep})
@@ -620,7 +625,7 @@ def stage_closest(ctx: Ctx, cs: Cases):
                 f"{' '.join(zz(s) for s in shape)} {qt(p)})")
 
         def handler(key=key, rep=rep):
-            ctx.fail("closest_refuted", key + ":model", None, f"{rep}: the implementation no longer behaves like the refuted model", found_input=False)
+            ctx.fail("closest_is_nearest", key + ":model", None, f"{rep}: the implementation does not behave like the coordinate computation generated from its source", found_input=False)
         cs.add(expr, handler)
 
 
@@ -824,13 +829,27 @@ def stage_interp(ctx: Ctx):
 
 
 # ----------------------------------------------------------------------------------------------- entry point
+VARIANT: dict = {}
 KNOWN_KEYS = {F2_SUM_KEY, F2_2D_KEY, BOX_KEY, BOXROT_KEY, CLOSE_NEG_KEY, CLOSE_OUT_KEY}
 
 
 def run(ctx: Ctx):
+    from grid.cubic import UniformGrid
+
     src = (SRC / "cubic.py").read_text()
     text, units = c13_translate.translate(src)  # raises (fail closed) outside the supported subset
-    ctx.gen("C13_gen.v", text, units)
+    text2, units2 = c13_translate.translate_axis(src)
+    # directed witness for the one behaviour flag that is not read off the source: can "Fourier2" be constructed in 2-D?
+    try:
+        UniformGrid(np.zeros(2), np.eye(2), np.array([4, 4]), weight="Fourier2")
+        VARIANT["fourier2_2d_ok"] = True
+    except IndexError:
+        VARIANT["fourier2_2d_ok"] = False
+    text = text.replace("From Coq Require Import ZArith.", "From Coq Require Import ZArith.\nFrom P Require Import C13_num.", 1)
+    text += ("\n" + text2 + "\n(* behaviour flag decided by a directed witness run (UniformGrid(zeros(2), eye(2), [4,4], 'Fourier2')) and validated by\n"
+             "   the correspondence on every other 2-D shape *)\n"
+             f"Definition fourier2_2d_ok : bool := {'true' if VARIANT['fourier2_2d_ok'] else 'false'}.\n")
+    ctx.gen("C13_gen.v", text, units + units2 + [{"unit": "witness:fourier2_2d_ok", "file": "src/grid/cubic.py", "lines": [0, 0], "sha": str(VARIANT["fourier2_2d_ok"])}])
     ctx.copy_coq("C13")
     status = ctx.coq_build()
     ctx.register_props(status)
@@ -838,6 +857,15 @@ def run(ctx: Ctx):
         ctx.fail("harness", "model-does-not-compile", None, "C13_gen.v / C13_model.v do not compile; no correspondence possible",
                  {"log": (ctx.logs.get("C13_gen.v", "") + ctx.logs.get("C13_model.v", ""))[-2000:]}, found_input=False)
         return
+    # full-strength clauses: proved of the generated code, or refuted (the *_refuted file explains the failure, the stages
+    # below re-derive the concrete failing input on the implementation)
+    for flag, props, refuted, thm, lemma in [("box_full", "C13_props_boxfull.v", "C13_refuted_box.v", "box_contains_nuclei", "box_refuted_lemma"),
+                                             ("closest_full", "C13_props_closestfull.v", "C13_refuted_closest.v", "closest_is_nearest", "closest_refuted_lemma"),
+                                             ("f2d_full", "C13_props_f2d.v", "C13_refuted_f2d.v", "fourier2_2d_constructs", "fourier2_2d_raises_lemma")]:
+        VARIANT[flag] = bool(status.get(props))
+        if not VARIANT[flag] and status.get(refuted):
+            ctx.mark_refuted(thm, lemma)
+    ctx.cov["impl_variant"] = dict(VARIANT)
 
     # at most three reported failures per obligation (one broken mechanism fails on almost every input); the
     # canonical inputs of the known findings are always reported
@@ -865,12 +893,26 @@ def run(ctx: Ctx):
     guarded(stage_weights, cs, tac)
     guarded(stage_box, cs)
     guarded(stage_closest, cs)
-    for i in ctx.coq_bool_cases("C13_cases", HDR_BOOL, cs.exprs, shard=max(8, math.ceil(len(cs.exprs) / 16))):
+    try:
+        badidx = ctx.coq_bool_cases("C13_cases", HDR_BOOL, cs.exprs, shard=max(8, math.ceil(len(cs.exprs) / 16)))
+    except RuntimeError:  # a shard was killed (overloaded machine): evaluate once more, in two big shards
+        badidx = ctx.coq_bool_cases("C13_cases_retry", HDR_BOOL, cs.exprs, shard=max(8, math.ceil(len(cs.exprs) / 2)))
+    for i in badidx:
         cs.handlers[i]()
     ctx.cov["bool_cases"] = len(cs.exprs)
     # Fourier weights: interval enclosures of the real-number model around every implementation weight
     reported = set()
-    for i in ctx.coq_tactic_cases("C13_fourier", HDR_TAC, [(g, t) for g, t, _ in tac], shard=max(4, math.ceil(len(tac) / 16))):
+    tsh = max(4, math.ceil(len(tac) / 16))
+    badt = ctx.coq_tactic_cases("C13_fourier", HDR_TAC, [(g, t) for g, t, _ in tac], shard=tsh)
+    # a shard whose coqc process died (killed on an overloaded machine) yields no verdict for its remaining goals:
+    # those goals (not the ones whose tactic explicitly failed) are evaluated once more
+    dead = {k for k in range(math.ceil(len(tac) / tsh)) if f"C13_fourier_{k}.v" in ctx.logs}
+    if dead:
+        again = [i for i in badt if i // tsh in dead]
+        redo = ctx.coq_tactic_cases("C13_fourier_retry", HDR_TAC, [(tac[i][0], tac[i][1]) for i in again], shard=max(4, math.ceil(len(again) / 4)))
+        badt = [i for i in badt if i // tsh not in dead] + [again[j] for j in redo]
+        ctx.notes.append(f"{len(dead)} interval shard(s) died and were re-evaluated ({len(again)} goals)")
+    for i in badt:
         key, rep, idx, scheme, d = tac[i][2]
         if key not in reported:
             reported.add(key)
@@ -892,7 +934,8 @@ def run(ctx: Ctx):
         "distinct = one per shape / grid / molecule / query")
     ctx.cov["exhaustive"] = "per shape (index maps, points, weights)"
     ctx.trusted += [
-        "props/c13_translate.py (ast -> Z arithmetic, symbolic unrolling for ndim 2 and 3; fail closed), validated by the exhaustive index tables",
+        "props/c13_translate.py (ast -> Z arithmetic, symbolic unrolling for ndim 2 and 3; per-direction symbolic execution of from_molecule(rotate=False) and closest_point; fail closed), validated by the exhaustive index tables and the rational correspondences",
+        "behaviour flag fourier2_2d_ok decided by one directed witness run, validated on all other 2-D shapes",
         "hand models in coq/C13/C13_model.v (points, kron, volume, weight schemes, from_molecule box, closest_point), tied by exact correspondence",
         "NumOps instances: theorems on reals (ROps), execution on rationals (QOps); their agreement is by construction of the generic definitions",
         "oracle (validated by sweep, not modelled): scipy CubicSpline / RegularGridInterpolator reproduce cubics / trilinear functions; numpy eigh frame in from_molecule(rotate=True)",
